@@ -317,12 +317,66 @@ def run(ctx, anchors=None):
     for fn_anchor, label in ((A["rewind"], "RewindScript"), (A["inst_rewind"], "Instance::rewind")):
         f = fb.fn(*fn_anchor)
         common.refusal_before_mutation(ctx, prog, f, "R04.3", label)
+    # ---- R04.4 history of a previous script is never popped: position-based refusal at a script's first
+    # instruction (history is not cleared at a script switch), or histories cleared at every switch
+    ctx.rule("R04.4", "a rewind at the first instruction of a script is refused (snapshots of a previous script are never restored into the next one)")
+    ir = fb.fn(*A["inst_rewind"])
+    icfg = ir.cfg()
+    rw_calls = [n for n in ir.nodes() if astq.is_call(n) and n.get("cid") == rewind.id]
+    pos_guard = None
+    cand = list(ir.nodes())
+    # the guard may live in a helper predicate called by Instance::rewind (e.g. at_start())
+    helpers = {}
+    for n in ir.nodes():
+        if astq.is_call(n) and n.get("cid") and n.get("cid") != rewind.id:
+            for g in prog.resolve(n["cid"]):
+                if g.rec == ir.rec and len(g.nodes()) < 40:
+                    helpers[n["id"]] = g
+
+    def is_pos_test(func, e):
+        if e is None or e.get("k") not in ("opcall", "bin") or e.get("op") != "==":
+            return False
+        a, b = (e["args"] if e["k"] == "opcall" else (e["lhs"], e["rhs"]))
+        ta, tb = astq.estr(a), astq.estr(b)
+        return (ta.endswith("pc") and "script.begin()" in tb) or (tb.endswith("pc") and "script.begin()" in ta)
+    for (blk, s_, c, t) in icfg.cond_edges():
+        cn = ir.node_by_id(c)
+        good = is_pos_test(ir, cn)
+        if not good and cn is not None and cn.get("id") in helpers:
+            g = helpers[cn["id"]]
+            rets = [r for r in g.nodes() if r["k"] == "return"]
+            good = len(rets) == 1 and is_pos_test(g, rets[0].get("e"))
+        if good and t:
+            rej0 = [r for r in ir.nodes() if r["k"] == "return" and astq.const_value(r.get("e")) == 0]
+            if icfg.must_pass_from_block(s_, rej0) and all(icfg.dominates(cn, rc) for rc in rw_calls):
+                pos_guard = cn
+    cleared = False
+    if pos_guard is None:
+        # alternative design: every script switch clears every pushed history
+        sal = astq.aliases(stepper)
+        sws = [n for n in stepper.nodes() if n["k"] == "opcall" and n["op"] == "=" and any(p[1:] == ("script",) for p in astq.paths(n["args"][0], sal))]
+        clears = {}
+        for n in stepper.nodes():
+            if n["k"] == "mcall" and n.get("n") == "clear":
+                for f_ in efields(stepper, n.get("obj")):
+                    clears.setdefault(f_[0], []).append(n)
+        cleared = bool(sws) and all(h in clears and cfg.must_pass_after(sw_, clears[h]) for sw_ in sws for h in pushed)
+    ctx.site()
+    ctx.inst(pos_guard is not None or cleared, "R04.4", "no-rewind-across-script-switch", ir.loc(pos_guard) if pos_guard is not None else ir.loc(),
+             "Instance::rewind refuses when pc == script.begin() (first instruction of any script) before calling RewindScript",
+             "Instance::rewind no longer refuses at the first instruction of a script and the history is not cleared at script switches: "
+             "a rewind right after a script switch restores a snapshot (stack, pc) of the previous script into the new one")
     ctx.extra["write_set_fields"] = sorted(".".join(k) for k in groups)
     ctx.extra["restore_set_fields"] = sorted(".".join(k) for k in Rs)
     ctx.extra["write_set_fixpoint_rounds"] = getattr(prog, "ws_rounds", None)
 
 
 MUTANTS = [
+    dict(name="drop-restore-vfExec", file="debugger/interpreter.cpp", find="    env.vfExec = env.vfExec_history.back();\n", replace="", expect=["R04.1:field=vfExec", "R04.2:restore:vfExec_history"]),
+    dict(name="drop-execdata-history", file="debugger/interpreter.cpp", regex=True, find=r"        env\.execdata_history\.push_back\(env\.execdata\);\n(.*?)            env\.execdata_history\.pop_back\(\);\n(.*?)    env\.execdata = env\.execdata_history\.back\(\);\n(.*?)    env\.execdata_history\.pop_back\(\);\n",
+         replace=r"\1\2\3", expect=["R04.1:field=execdata"]),
+    dict(name="rewind-guard-by-history-emptiness", file="instance.cpp", find="    if (env->pc == env->script.begin()) {\n        return false;\n    }\n    if (env->done) {",
+         replace="    if (env->stack_history.empty()) {\n        return false;\n    }\n    if (env->done) {", expect=["R04.4:no-rewind-across-script-switch"]),
     dict(name="drop-restore-altstack", file="debugger/interpreter.cpp",
          find="    env.altstack = env.altstack_history.back();\n", replace="",
          expect=["R04.1:field=altstack", "R04.2:restore:altstack_history"]),
